@@ -114,7 +114,7 @@ def _arr(points):
 def _rand_call(rng, tier, heavy):
     u = rng.random()
     if u < 0.3:
-        o = _c03._gen_op(rng, tier)
+        o = _c03._gen_op(rng, tier, wild=False)
         if o["op"] in ("rotate_rodrigues", "reorient"):
             heavy[0] += 1
             if heavy[0] > 2:
@@ -132,7 +132,7 @@ def _rand_call(rng, tier, heavy):
 def _good_transform(rng, tier, heavy):
     """a transform-appending call that is accepted (so that tags end up at different positions)"""
     while True:
-        o = _c03._gen_op(rng, tier)
+        o = _c03._gen_op(rng, tier, wild=False)
         if _c03.expected_outcome(o, 1.0)[0] != "ok":
             continue
         if o["op"] in ("rotate_rodrigues", "reorient"):
